@@ -1400,6 +1400,201 @@ def _gmrf_variant_ok(frm, skip):
     return True
 
 
+# ----------------------------------------------------------------------------------------------- facet 6 (FirstObservable)
+FO_LETTER = {"sample": "S", "logpdf": "L", "gradient": "G"}
+FO_ALWAYS = ("A.S.A.S",)                                   # sample FIRST after every assignment
+FO_ROTATE = ("L.A.S", "S.A.S", "G.A.S", "A.G.S", "A.A.S", "A.S.L.S")
+
+
+def fo_id(ops):
+    return ".".join("A" if o["op"] == "assign" else FO_LETTER[o["obs"]] for o in ops)
+
+
+class FoWiring:
+    sub = "wiring"
+
+    def __init__(self, rc):
+        self.rc, self.frm = rc, rc["from"]
+        self.family = self.frm["family"]
+        self.key = ("wiring", wiring_sig(self.frm))
+
+    def formats(self):
+        return [None]
+
+    def build(self, fmt):
+        return build_family(self.frm)
+
+    def assign(self, dist, fmt, t, exp):
+        name = t["assign"][0]
+        p = [q for q in exp["params"] if q["name"] == name][0]
+        v = fvec(p["val"])
+        setattr(dist, name, float(v[0]) if p["passed"] == "scalar" else v)
+        return name
+
+    def point(self, exp):
+        return np.full(self.frm["dim"], 0.5)
+
+    def sample(self, ctx, dist, fmt, exp, tag, last):
+        run_wiring(ctx, exp, dist=dist, tag=tag)
+        if last:
+            run_wiring(ctx, exp, use_global=True, dist=dist, tag=tag)
+
+
+class FoGauss:
+    sub = "gauss"
+
+    def __init__(self, rc):
+        self.rc, self.frm = rc, rc["from"]
+        self.family = "Lognormal" if self.frm["wrap"] == "lognormal" else "Gaussian"
+        self.key = ("gauss", gauss_sig(self.frm))
+
+    def formats(self):
+        frm = self.frm
+        if frm["wrap"] == "lognormal" and frm["mform"] == "scalar" and frm["shape"] == "scalar" and frm["dim"] > 1:
+            return []
+        return [g[0] for g in gauss_inputs(frm)]
+
+    def build(self, fmt):
+        g = [g for g in gauss_inputs(self.frm) if g[0] == fmt][0]
+        return build_gauss(self.frm, g[1], g[2], g[3])
+
+    def assign(self, dist, fmt, t, exp):
+        name = t["assign"][0]
+        new = [g for g in gauss_inputs(exp) if g[0] == fmt][0]
+        setattr(dist, name, new[1] if name == "mean" else new[2])
+        return name
+
+    def point(self, exp):
+        m = fvec(exp["mean"])
+        return np.exp(m + 0.25) if exp["wrap"] == "lognormal" else m + 0.25      # (inside the support: the inner density is reached)
+
+    def sample(self, ctx, dist, fmt, exp, tag, last):
+        # the sampling path alone, judged against the specification's precision: no density is evaluated here
+        observe_gauss(ctx, exp, dist, fmt, (2,), tag=tag, globals_too=last, density=False)
+
+
+class FoGmrf:
+    sub = "gmrf"
+
+    def __init__(self, rc):
+        self.rc, self.frm = rc, rc["from"]
+        self.family = "GMRF"
+        self.key = ("gmrf", gmrf_key(self.frm), self.frm["wm"])
+
+    def formats(self):
+        return [None]
+
+    def build(self, fmt):
+        import cuqi
+        frm = self.frm
+        n = frm["n"]
+        geom = cuqi.geometry.Continuous1D(n) if frm["pd"] == 1 else cuqi.geometry.Image2D((n, n))
+        return cuqi.distribution.GMRF(np.array(frm["mean"], dtype=float), float(frm["delta"]), bc_type=frm["bc"], order=frm["order"], geometry=geom)
+
+    def assign(self, dist, fmt, t, exp):
+        name = t["assign"][0]
+        setattr(dist, name, np.array(exp["mean"], dtype=float) if name == "mean" else float(exp["delta"]))
+        return name
+
+    def point(self, exp):
+        return np.array(exp["mean"], dtype=float) + 0.5
+
+    def sample(self, ctx, dist, fmt, exp, tag, last):
+        key = gmrf_key(exp)
+        mean = np.array(exp["mean"], dtype=float)
+        P = float(exp["delta"]) * fmat(exp["P0"])
+        tol = 1e-9 if exp["bc"] == "zero" else 1e-6
+        ctx.case(("gmrf", key, tag), facet="affine_gmrf_firstobs")
+        sg = key + "/N=2" + tag
+        try:
+            got = read_affine(ctx, sg, exp, dist, 2, tol=tol)
+        except NotImplementedError:
+            got = None
+        if got is not None:
+            check_law(ctx, sg, exp, mean, P, exp["rank"] == exp["dim"], got, tol)
+
+
+def fo_walk(ctx, ad, fmt, ops):
+    """one behaviour of facet 6 on ONE real object of the Reassign case ad.rc: k-th assign = trail[k]; every `sample` is judged by the
+    observer of facet 1 / 2 against the case expected after the assignments made so far; logpdf / gradient are only CALLED (their
+    values are judged elsewhere) - they are the observables that may come first."""
+    rc = ad.rc
+    if sum(1 for o in ops if o["op"] == "assign") > len(rc["trail"]):
+        return False
+    wid = fo_id(ops)
+    try:
+        with quiet():
+            dist = ad.build(fmt)
+    except Exception:
+        return False                                # reported by facet 1 / 2
+    done, names = 0, []
+    nsamp = sum(1 for o in ops if o["op"] == "observe" and o["obs"] == "sample")
+    ksamp = 0
+    for k, o in enumerate(ops):
+        exp = dict(rc["trail"][done - 1]["expect"] if done else rc["from"], kind="firstobs_step", fo={"rc": rc, "ops": ops, "fmt": fmt})
+        if o["op"] == "assign":
+            t = rc["trail"][done]
+            try:
+                with quiet():
+                    names.append(ad.assign(dist, fmt, t, t["expect"]))
+            except Exception as e:
+                _re_refused(ctx, "%s.%s" % (ad.family, t["assign"][0]), e)
+                return False
+            done += 1
+            continue
+        if o["obs"] == "sample":
+            ksamp += 1
+            tag = "/firstobs=%s/at=%d/assigned=%s" % (wid, k + 1, "+".join(names) or "none")
+            ad.sample(ctx, dist, fmt, exp, tag, ksamp == nsamp)
+        else:
+            x = ad.point(exp)
+            with quiet(), np.errstate(all="ignore"):
+                try:
+                    dist.logpdf(x) if o["obs"] == "logpdf" else dist.gradient(x)
+                except Exception:                   # not every family offers a gradient: a refusal is not judged here
+                    pass
+    return True
+
+
+def run_firstobs(ctx, recases, walks, thorough):
+    by_id = {fo_id(w["ops"]): w["ops"] for w in walks}
+    for wid in FO_ALWAYS + FO_ROTATE:
+        if wid not in by_id:
+            machinery("facet 6: TLC did not emit the behaviour %s" % wid)
+    ids = sorted(by_id)
+    seen, skip, done, used, fams = set(), set(), {}, set(), {}
+    rot = 0
+    with min_dim_sparse(2):
+        for rc in sorted(recases, key=lambda c: json.dumps([c["sub"], c["from"], c["order"]], sort_keys=True)):
+            sub = rc["sub"]
+            if sub == "gmrf" and not _gmrf_variant_ok(rc["from"], skip):
+                continue
+            ad = {"wiring": FoWiring, "gauss": FoGauss, "gmrf": FoGmrf}[sub](rc)
+            fmts = ad.formats()
+            if not fmts:
+                continue
+            for fmt in (fmts if thorough else [fmts[rot % len(fmts)]]):
+                chosen = list(FO_ALWAYS) + [FO_ROTATE[rot % len(FO_ROTATE)], ids[rot % len(ids)]] + ([ids[(rot * 7 + 3) % len(ids)]] if thorough else [])
+                rot += 1
+                for wid in dict.fromkeys(chosen):
+                    k = (ad.key, fmt, tuple(rc["order"]), wid)
+                    if k in seen:
+                        continue
+                    seen.add(k)
+                    if fo_walk(ctx, ad, fmt, by_id[wid]):
+                        done[sub] = done.get(sub, 0) + 1
+                        used.add(wid)
+                        fams[ad.family] = fams.get(ad.family, 0) + 1
+    for sub in ("wiring", "gauss", "gmrf"):
+        if not done.get(sub):
+            machinery("vacuous: no FirstObservable behaviour of kind %s was replayed" % sub)
+    for f in ("Gaussian", "Lognormal", "GMRF"):
+        if not fams.get(f):
+            machinery("vacuous: no FirstObservable behaviour on a %s object" % f)
+    ctx.observations["firstobs"] = {"walks_replayed": done, "per_family": fams, "distinct_walks_used": "%d of %d emitted" % (len(used), len(ids))}
+    return sum(done.values())
+
+
 # ----------------------------------------------------------------------------------------------- facet 3
 def _digest():
     """Value identifying the state of numpy's global random stream (compared for equality before / after a call)."""
@@ -1585,9 +1780,9 @@ def run_streams(ctx, behaviours, per_behaviour, label):
 
 # ------------------------------------------------------------------------------------------------- run
 EXTRA = ("DiffOps.tla",)
-NMAIN = 5         # deciding TLC runs (cases, stream, deep, reassign, siblings); the named deviations follow
+NMAIN = 6         # deciding TLC runs (cases, stream, deep, reassign, siblings, firstobs); the named deviations follow
 
-DEVIATIONS = [("Sampling.dev.shared_derived.cfg", "SibOwnDraw"), ("Sampling.dev.dia_as_diagonal.cfg", "FsLaw"),
+DEVIATIONS = [("Sampling.dev.sync_in_density_only.cfg", "FoUsesCurrent"), ("Sampling.dev.shared_derived.cfg", "SibOwnDraw"), ("Sampling.dev.dia_as_diagonal.cfg", "FsLaw"),
               ("Sampling.dev.stale_after_assign.cfg", "ReSampFresh"), ("Sampling.dev.dft_on_noncirculant.cfg", "DftLaw"), ("Sampling.dev.dft_sorted_eigs.cfg", "DftLaw"),
               ("Sampling.dev.lower_as_upper.cfg", "GaussLaw"), ("Sampling.dev.ignores_rng.cfg", "GlobalUntouched"),
               ("Sampling.dev.ignores_rng_det.cfg", "Deterministic")]
@@ -1645,7 +1840,7 @@ def run(ctx):
     devs = [d for d in DEVIATIONS if thorough or d[0] != "Sampling.dev.ignores_rng_det.cfg"]
     jobs = [("Sampling.cases.%s.cfg" % ctx.tier, 8, False, "2g"), ("Sampling.stream.%s.cfg" % ctx.tier, 4, False, "2g"),
             ("Sampling.deep.%s.cfg" % ctx.tier, 2, False, "1g"), ("Sampling.reassign.%s.cfg" % ctx.tier, 4, False, "2g"),
-            ("Sampling.siblings.%s.cfg" % ctx.tier, 2, False, "1g")] \
+            ("Sampling.siblings.%s.cfg" % ctx.tier, 2, False, "1g"), ("Sampling.firstobs.%s.cfg" % ctx.tier, 2, False, "1g")] \
         + [(cfg, 2, True, "1g") for cfg, _ in devs]
     results = tlc_jobs(ctx, jobs)
     try:
@@ -1657,7 +1852,7 @@ def run(ctx):
 
 def _run_with_results(ctx, results, devs, thorough):
     from cuqiverif import tlc as _tlc
-    res, res3, res4, res5, res6 = results[:NMAIN]
+    res, res3, res4, res5, res6, res7 = results[:NMAIN]
     # ---- model checking + case emission (facets 1, 2)
     ctx.model_must_hold(res, "Sampling/cases")
     cases = res.cases
@@ -1727,6 +1922,15 @@ def _run_with_results(ctx, results, devs, thorough):
         ctx.sample({"reassign": {"order": rcs[0]["order"], "from": rcs[0]["from"]["params"],
                                  "trail": [{"assign": t["assign"], "args": t["expect"]["args"]} for t in rcs[0]["trail"]]}})
     lap("siblings")
+    # ---- facet 6: after a public setter any observable may be used first (behaviours of facet 6 x Reassign cases of facet 4)
+    ctx.model_must_hold(res7, "Sampling/firstobs")
+    fowalks = [c for c in res7.cases if c.get("kind") == "fowalk"]
+    _tlc.cleanup(res7)
+    if res7.ok and not fowalks:
+        machinery("no behaviours emitted by Sampling (FirstObservable facet)")
+    if fowalks and recases:
+        ctx.traces += run_firstobs(ctx, recases, fowalks, thorough)
+    lap("firstobs")
     # ---- stream state machine
     ctx.model_must_hold(res3, "Sampling/stream")
     beh = res3.cases
@@ -1788,6 +1992,10 @@ def replay(ctx, case):
         sb = case["sib"]
         with min_dim_sparse(2):
             return sib_walk(ctx, _sib_adapter(sb["sub"], sb["rc"], sb["n"]), sb["fmt"], sb["walk"])
+    if kind == "firstobs_step":
+        fo = case["fo"]
+        with min_dim_sparse(2):
+            return fo_walk(ctx, {"wiring": FoWiring, "gauss": FoGauss, "gmrf": FoGmrf}[fo["rc"]["sub"]](fo["rc"]), fo["fmt"], fo["ops"])
     if kind == "bigdiag":
         return run_bigdiag(ctx, case)
     if kind == "gmrf_group":
